@@ -78,6 +78,13 @@ def find(key: str):
             for sub in ast.walk(node):
                 if sub is not node and isinstance(sub, (ast.FunctionDef, ast.ClassDef)) and sub.name == part:
                     nxt = sub
+        if nxt is None and isinstance(node, ast.FunctionDef) and i == len(parts) - 1 and "<locals>" in qual and os.environ.get("VERIF_NO_ALIGN") != "1":
+            # a nested carrier that an extract-function refactor moved to module level: its contract follows it (pyvc/follow.py)
+            from . import follow
+
+            wnode, seg = follow.moved_nested(key0, src, mod, node, part)  # KeyError (exit 3) says which function was tried
+            _find_cache[key0] = (wnode, seg, hashlib.sha256(seg.encode()).hexdigest())
+            return _find_cache[key0]
         if nxt is None:
             raise KeyError(f"carrier not found: {key} (missing '{part}')")
         node = nxt
